@@ -94,6 +94,8 @@ type Path struct {
 
 	mapOrderAll bool
 	mapPermMax  int
+	vfiles      map[string]string // verifrt.TempDirWithFiles: path -> content
+	vdirs       map[string]bool
 	declared    int // number of F.Vars already declared in solver
 	ufDeclared  int
 	queries     int
